@@ -14,10 +14,11 @@ RULE = ('(i) glob matcher: pattern x hostmask pairs, exhaustive up to length 3 (
         'cache-free recomputation; after every accepted setUser: no two accounts own masks matching one hostmask of the pool. '
         '(iii) command layer: the histories interleave real User plugin commands (hostmask add/remove, identify, unidentify, changename, '
         'register) sent as private messages through a live bot (Owner, Misc, Config, User loaded) with the API operations; every command '
-        'is one step of the model (run_cmd) from a snapshot of the real state, with passwords / owner flag / syntax checks observed from '
+        '(and user set secure on/off/toggle from matching, foreign, identified and unidentified hostmasks) is one step of the model (run_cmd) from a snapshot of the real state, with passwords / owner flag / syntax checks observed from '
         'the real run as inputs; which except clause catches what around users.setUser is regenerated from plugins/User/plugin.py (table '
         'T04, fail-closed); direct oracle: after every refused command (no "The operation succeeded") the accounts (name, masks, secure, '
-        'unexpired logins) are compared with the snapshot taken before it; after every accepted hostmask add / register no two accounts own '
+        'unexpired logins) are compared with the snapshot taken before it; an accepted user set secure must come from a hostmask one of the '
+        'account\'s masks matches; a lookup that answers a secure account must be matched by one of its masks; after every accepted hostmask add / register no two accounts own '
         'masks matching one hostmask of the pool.  non-trivial = distinct (state, op) step with at least one user')
 TRUSTED = ["Python's re for the atoms the translator emits (differentially tested against the model matcher)",
            're.I is modelled for ASCII letters only (generators use ASCII + non-cased characters)',
@@ -43,9 +44,11 @@ LEVEL_TEXT = ('Coq theorems over an executable Gallina model of the hostmask glo
               'small-alphabet matcher comparison against the real regex translation.')
 LEVEL_NOTE = ('Trusted: Coq kernel, extraction + driver, harness; Python re for the emitted atoms (tested), ASCII-only re.I, forward-only '
               'cache model, name cache not modelled; clock and timeout are explicit inputs.  Command layer: a refused User plugin command '
-              'leaves the accounts as they were (C04_refused_command_no_trace, on the domain: no ambiguous lookup; hostmask add of a mask '
-              'nobody owns yet, any refusal; other commands, refusals that do not come out of users.setUser: finding F23 outside), an '
-              'accepted hostmask add keeps the coherence invariant; dispatcher and converters are modelled as lookups of the sender and '
+              'leaves the accounts as they were whatever refuses it, users.setUser included (C04_refused_command_no_trace; F23 and F24 '
+              'repaired: every command undoes its edit; only proviso: no lookup of the command hit the Multiple-matches branch), an '
+              'accepted hostmask add keeps the coherence invariant; `user set secure` is modelled with its guard pinned (useAuth=False) and '
+              'a secure account answered by a lookup has a matching registered mask after any history on the domain of '
+              'C04_secure_needs_mask_after_history_on_domain (refuted outside: findings F25, F26); dispatcher and converters are modelled as lookups of the sender and '
               'of the <name> argument only; passwords, capabilities and syntax checks are oracle inputs.')
 TECHNIQUE = 'Coq proof (induction on patterns; invariant over operation histories) + per-step refinement check against the real objects'
 
@@ -180,7 +183,7 @@ def apply_real(mods, users, o, hostmasks=None):
 _BOT = {}
 PASSWORD, WRONG = 'secret', 'wrong'
 NAMES = ['u1', 'u2', 'u3', 'u4', 'nobody', 'fresh', 'Fresh2']
-CMD_KINDS = ['add', 'remove', 'identify', 'unidentify', 'changename', 'register']
+CMD_KINDS = ['add', 'remove', 'identify', 'unidentify', 'changename', 'register', 'secure']
 CMD_MASKS = MASKS + ['*!*@*', 'nomask', 'q!q@q', 'n[ck!u@h']
 
 
@@ -298,6 +301,8 @@ def cmd_text(c):
         return 'unidentify'
     if kind == 'changename':
         return 'changename %s %s %s' % (_q(a), _q(b), _q(pw))
+    if kind == 'secure':
+        return ('user set secure %s %s' % (_q(pw), b)).rstrip()
     return 'register %s %s' % (_q(a), _q(pw))
 
 
@@ -316,7 +321,7 @@ def run_command(mods, P, c):
         obs['feed_raised'] = type(e).__name__
     out = _drain()
     texts = [x.args[1] for x in out if hasattr(x, 'args') and len(x.args) > 1]
-    return any('The operation succeeded' in t for t in texts), dict(obs), texts
+    return any('The operation succeeded' in t or 'Secure flag set to' in t for t in texts), dict(obs), texts
 
 
 def cmd_oracle_inputs(mods, P, c, obs):
@@ -331,6 +336,8 @@ def cmd_oracle_inputs(mods, P, c, obs):
 
 
 def wire_cmd(c):
+    if c[0] == 'secure':
+        return [CMD_KINDS.index(c[0]), {'False': 0, 'True': 1, '': 2}[c[2]], '']
     return [CMD_KINDS.index(c[0]), c[1], c[2]]
 
 
@@ -370,7 +377,7 @@ def gen_history(rng):
 
 
 def gen_cmd(rng, known):
-    kind = rng.choice(['add', 'add', 'add', 'remove', 'identify', 'identify', 'unidentify', 'changename', 'register'])
+    kind = rng.choice(['add', 'add', 'add', 'remove', 'identify', 'identify', 'unidentify', 'changename', 'register', 'secure', 'secure'])
     name = ('u%d' % rng.choice(known)) if known and rng.random() < 0.9 else rng.choice(NAMES)
     pw = PASSWORD if rng.random() < 0.8 else WRONG
     P = rng.choice(HOSTS)
@@ -380,6 +387,8 @@ def gen_cmd(rng, known):
         return ['cmd', P, [kind, name, rng.choice(NAMES), pw]]
     if kind == 'register':
         return ['cmd', P, [kind, rng.choice(NAMES), '', pw]]
+    if kind == 'secure':
+        return ['cmd', P, [kind, '', rng.choice(['True', 'True', 'False', '']), pw]]
     return ['cmd', P, [kind, name, '', pw]]
 
 
@@ -440,6 +449,15 @@ def run_history(ctx, mods, hist, model=True, kind='history'):
                                       'via': 'setuser' if via_set else 'other', 'owned': owned,
                                       'detail': '%s from %s was refused (%r) but the user database changed: %r'
                                                 % (cmd_text(o[2]), o[1], texts[:1], diff[:2])})
+                if ok and o[2][0] == 'secure':
+                    # "Requires that the person's hostmask be in the list of hostmasks for that user": an accepted
+                    # set secure was sent from a hostmask one of the account's registered masks matches
+                    for i in set(recognisers_ref(before, o[1], clock.now, timeout)):
+                        u = dict((j, v) for j, v in before[0])[i]
+                        if not any(ref_match(m, o[1]) for m in u[1]):
+                            fails.append({'step': idx, 'h': o[1], 'kind': 'secure-set-from-foreign', 'cmd': 'secure',
+                                          'detail': '%s from %s was accepted for account %r although none of its masks %r matches the sender'
+                                                    % (cmd_text(o[2]), o[1], i, u[1])})
                 if ok and o[2][0] in ('add', 'register'):
                     for h in HOSTS:
                         owners = [i for i, u in after[0] if any(ref_match(m, h) for m in u[1])]
@@ -461,7 +479,13 @@ def run_history(ctx, mods, hist, model=True, kind='history'):
                         fails.append({'step': idx, 'h': h, 'kind': 'not-recognised-by-recomputation',
                                       'detail': 'lookup(%r) = %r at t=%d but a cache-free recomputation finds %r (%s answer)'
                                                 % (h, res[1], clock.now, rec, why)})
-                    elif len(rec) > 1:
+                    else:
+                        u = dict((i, v) for i, v in before[0]).get(res[1])
+                        if u is not None and u[3] and not any(ref_match(m, h) for m in u[1]):
+                            fails.append({'step': idx, 'h': h, 'kind': 'secure-without-mask',
+                                          'detail': 'lookup(%r) = %r: the account is secure but none of its masks %r matches (recognised by a login only)'
+                                                    % (h, res[1], u[1])})
+                    if res[1] in rec and len(rec) > 1:
                         fails.append({'step': idx, 'h': h, 'kind': 'two-accounts',
                                       'detail': 'lookup(%r) = %r but accounts %r all recognise it' % (h, res[1], rec)})
                 elif res[1] == 'KeyError' and len(rec) == 1:
@@ -526,7 +550,7 @@ def _overlapping_globs(inp):
     """F6: setUser's overlap test is literal.  An account was given a glob mask that has a common match with a glob mask
     of another account, or that matches a hostmask another account is logged in from (neither is equal as a string)"""
     hist = inp.get('history')
-    if not hist or inp.get('kind') == 'refused-with-trace':
+    if not hist or inp.get('kind') in ('refused-with-trace', 'secure-without-mask', 'secure-set-from-foreign'):
         return False
     upto = hist['ops'][:inp['step'] + 1]
     # masks given by setUser through the API or by an accepted `hostmask add`
@@ -547,20 +571,22 @@ def _overlapping_globs(inp):
     return False
 
 
-def _edit_not_undone(inp):
-    """F23: users.setUser refused (DuplicateHostmask) what a command other than `hostmask add` had already edited on the live
-    account, and the command does not undo its edit (identify, unidentify, changename, hostmask remove, register)"""
-    return inp.get('kind') == 'refused-with-trace' and inp.get('via') == 'setuser' and inp.get('cmd') in (
-        'identify', 'unidentify', 'changename', 'remove', 'register')
-
-
-def _add_owned_mask(inp):
-    """F24: `hostmask add` of a mask the account already owns, refused by setUser for another reason: the rollback removes the mask"""
-    return inp.get('kind') == 'refused-with-trace' and inp.get('via') == 'setuser' and inp.get('cmd') == 'add' and inp.get('owned') is True
-
-
 # F5 (expired_login_cached) and F22 (login_vs_mask) are repaired: their classes are gone, their witnesses head the corpus
-CLASSES = {'overlapping_globs': _overlapping_globs, 'edit_not_undone': _edit_not_undone, 'add_owned_mask': _add_owned_mask}
+def _secure_stale_login(inp):
+    """F25: a secure account is recognised through a login from a hostmask none of its masks matches: the secure rule is only
+    applied by addAuth, so logins made before the flag was turned on (user set secure, setUser) or before the matching mask was
+    removed (hostmask remove, setUser) keep being honoured by checkHostmask"""
+    return inp.get('kind') == 'secure-without-mask'
+
+
+def _secure_not_undone(inp):
+    """F26: user set secure refused by users.setUser (DuplicateHostmask) keeps the new flag on the live account (the F23 defect
+    in a command the F23 repair did not touch)"""
+    return inp.get('kind') == 'refused-with-trace' and inp.get('via') == 'setuser' and inp.get('cmd') == 'secure'
+
+
+# F23 (edit_not_undone) and F24 (add_owned_mask) are repaired as well; their witnesses are in the corpus too
+CLASSES = {'overlapping_globs': _overlapping_globs, 'secure_stale_login': _secure_stale_login, 'secure_not_undone': _secure_not_undone}
 
 CORPUS = [
     {'timeout': 10, 'ops': [['new'], ['set', 1, ['u1', ['zz!zz@zz'], None, False]], ['auth', 1, 'ab!x@y'], ['lookup', 'ab!x@y'],
@@ -575,13 +601,25 @@ CORPUS = [
     {'timeout': 10, 'ops': [['new'], ['set', 1, ['u1', ['zz!zz@zz'], None, False]], ['auth', 1, 'ab!x@y'], ['lookup', 'ab!x@y'],
                             ['tick', 8], ['auth', 1, 'q!q@q'], ['lookup', 'q!q@q'], ['lookup', 'ab!x@y'], ['tick', 5], ['lookup', 'ab!x@y'],
                             ['lookup', 'q!q@q']]},
+    # user set secure from a hostmask that is only identified, not matched by a registered mask: must be refused
+    {'timeout': 0, 'ops': [['new'], ['set', 1, ['u1', ['zz!zz@zz'], None, False]], ['cmd', 'q!q@q', ['identify', 'u1', '', 'secret']],
+                           ['cmd', 'q!q@q', ['secure', '', 'True', 'secret']], ['lookup', 'q!q@q'], ['lookup', 'zz!zz@zz']]},
+    # F25: secure turned on from a matching hostmask while a login from a foreign hostmask is still there
+    {'timeout': 0, 'ops': [['new'], ['set', 1, ['u1', ['ab!x@y'], None, False]], ['cmd', 'q!q@q', ['identify', 'u1', '', 'secret']],
+                           ['cmd', 'ab!x@y', ['secure', '', 'True', 'secret']], ['lookup', 'q!q@q']]},
+    # F25: the mask a secure account's login relies on is removed
+    {'timeout': 0, 'ops': [['new'], ['set', 1, ['u1', ['ab!x@y', 'q!q@q'], None, True]], ['cmd', 'q!q@q', ['identify', 'u1', '', 'secret']],
+                           ['cmd', 'ab!x@y', ['remove', 'u1', 'q!q@q', 'secret']], ['lookup', 'q!q@q']]},
+    # F26: set secure refused by setUser keeps the new flag
+    {'timeout': 0, 'ops': [['new'], ['new'], ['set', 1, ['u1', ['ab!x@y', 'zz!zz@zz'], None, False]], ['set', 2, ['u2', [], None, False]],
+                           ['auth', 2, 'zz!zz@zz'], ['cmd', 'ab!x@y', ['secure', '', 'True', 'secret']]]},
     # command layer: a refused `hostmask add` (overlap with another account's mask found by setUser) must leave no trace
     {'timeout': 0, 'ops': [['new'], ['new'], ['set', 1, ['u1', ['ab!*@y'], None, False]], ['set', 2, ['u2', ['zz!zz@zz'], None, False]],
                            ['cmd', 'zz!zz@zz', ['add', 'u2', '*!*@y', 'secret']], ['lookup', 'ab!x@y'], ['lookup', 'q!q@y']]},
-    # F23: identify answered with an error (setUser refuses: a mask of u1 is a hostmask u2 is logged in from) but the login stays
+    # old witness of F23 (repaired): identify refused by setUser (a mask of u1 is a hostmask u2 is logged in from) left the login
     {'timeout': 0, 'ops': [['new'], ['new'], ['set', 1, ['u1', ['ab!x@y'], None, False]], ['set', 2, ['u2', [], None, False]],
                            ['auth', 2, 'ab!x@y'], ['cmd', 'q!q@q', ['identify', 'u1', '', 'secret']], ['lookup', 'q!q@q']]},
-    # F24: hostmask add of an owned mask, refused by setUser because of another mask: the rollback removes the owned mask
+    # old witness of F24 (repaired): hostmask add of an owned mask, refused by setUser because of another mask, removed the owned mask
     {'timeout': 0, 'ops': [['new'], ['new'], ['set', 1, ['u1', ['ab!x@y', 'zz!zz@zz'], None, False]], ['set', 2, ['u2', [], None, False]],
                            ['auth', 2, 'zz!zz@zz'], ['cmd', 'q!q@q', ['add', 'u1', 'ab!x@y', 'secret']]]},
     # a login from a hostmask a glob mask of another account matches, made while the hostmask is cached
